@@ -178,15 +178,26 @@ pub fn run(ws: &[&str]) -> String {
 
     // builder order varies from case to case: the ceiling is set before or after the time source
     let order_bit = ws.iter().flat_map(|w| w.bytes()).fold(0xcbf29ce484222325u64, |h, b| (h ^ b as u64).wrapping_mul(0x100000001b3)) >> 17 & 1;
+    // in half of the cases each setter is first called with a value that is then superseded (a
+    // clock that must never be consulted, another ceiling)
+    let twice = ws.iter().flat_map(|w| w.bytes()).fold(0xcbf29ce484222325u64, |h, b| (h ^ b as u64).wrapping_mul(0x100000001b3)) >> 27 & 1 == 0;
+    let dead_clock = || -> DateTime<Utc> { std::panic::panic_any(Exhausted) };
     let req = if order_bit == 0 {
-        let mut req = client.exchange_device_access_token(&details).set_time_fn(time_fn);
+        let req = client.exchange_device_access_token(&details);
+        let mut req = if twice { req.set_time_fn(dead_clock).set_time_fn(time_fn) } else { req.set_time_fn(time_fn) };
         if let Some(b) = backoff {
+            if twice {
+                req = req.set_max_backoff_interval(Duration::from_secs(123));
+            }
             req = req.set_max_backoff_interval(b);
         }
         req
     } else {
         let mut req = client.exchange_device_access_token(&details);
         if let Some(b) = backoff {
+            if twice {
+                req = req.set_max_backoff_interval(Duration::from_millis(1));
+            }
             req = req.set_max_backoff_interval(b);
         }
         req.set_time_fn(time_fn)
